@@ -244,6 +244,7 @@ impl Prop for OsErrors {
         if let Err(e) = std::fs::create_dir_all(&base) {
             fail!("harness/tempdir", "cannot create {}: {}", base.display(), e);
         }
+        let _cleanup = crate::util::TempPath(base.clone());
         let file = base.join("three_records");
         let text: &[u8] = if c.format == Format::Fasta { b">a\nACGT\n>b\nGG\n>c\nT\n" } else { b"@a\nACGT\n+\nIIII\n@b\nGG\n+\nII\n@c\nT\n+\nI\n" };
         if let Err(e) = std::fs::write(&file, text) {
